@@ -68,3 +68,16 @@ Theorem C16_stop_waited_refuted :
   forall ls s, no_handler_done ls -> sruns false 1 stuck_state ls = Some s -> s = stuck_state.
 Proof. split; [exact stuck_reachable|exact stop_waits_for_a_slot_refuted]. Qed.
 Print Assumptions C16_stop_waited_refuted.
+
+(* ---- life cycles of the service object (run.go proxySvc.Start / Stop / Restart; Model/Svc.v) ---- *)
+From NX Require Import Svc SvcFacts.
+(* what a call has to report over a whole history -- a start on an address somebody else holds reports the
+   failure, whatever came before (an earlier failed start, a stop), a start that reports success holds the
+   address -- is coherent: a serving service and a foreign occupant never coexist *)
+Theorem C16_lifecycle_coherent : forall ops s, svc_inv s -> svc_wf s ops = true -> svc_inv (fst (svc_run s ops)).
+Proof. exact svc_run_inv. Qed.
+Print Assumptions C16_lifecycle_coherent.
+Theorem C16_start_honest : forall s o ok held, (o = SvStart \/ o = SvRestart) ->
+  snd (svc_step s o) = Some (ok, held) -> ok = held /\ (ok = true <-> sv_occupied s = false).
+Proof. exact svc_start_honest. Qed.
+Print Assumptions C16_start_honest.
